@@ -3,6 +3,7 @@
     through this function.  Decoding glue only; no proofs. *)
 From Coq Require Import ZArith List Bool.
 From PV Require Import Flat Bytes BinFmt RWQc Sched.
+From PV Require Import RunC07 RunC09 RunC10 RunC11 RunC16 RunC20.
 Import ListNotations.
 Open Scope Z_scope.
 
@@ -94,6 +95,12 @@ Definition run_core (id : Z) (inp : list Z) : option (list Z) :=
 (** one runner per model family; the first that knows the id answers *)
 Definition runners : list (Z -> list Z -> option (list Z)) :=
   [ run_core
+  ; run_c07
+  ; run_c09
+  ; run_c10
+  ; run_c11
+  ; run_c16
+  ; run_c20
   ].
 
 Definition run_model (id : Z) (inp : list Z) : list Z :=
